@@ -596,11 +596,13 @@ func (e *Extractor) extractSuffixes(re *syntax.Regexp, depth int) *Seq {
 		}
 		// Direct literal
 		bytes := runeSliceToBytes(re.Rune)
+		complete := true
 		if len(bytes) > e.config.MaxLiteralLen {
 			// For suffix, take the LAST MaxLiteralLen bytes
 			bytes = bytes[len(bytes)-e.config.MaxLiteralLen:]
+			complete = false
 		}
-		return NewSeq(NewLiteral(bytes, true))
+		return NewSeq(NewLiteral(bytes, complete))
 
 	case syntax.OpConcat:
 		// Concatenation: take suffix from LAST sub-expression and extend with preceding literals
@@ -666,11 +668,13 @@ func (e *Extractor) extractSuffixes(re *syntax.Regexp, depth int) *Seq {
 				copy(newBytes, prefix)
 				copy(newBytes[len(prefix):], lit.Bytes)
 				// Truncate if too long
+				complete := lit.Complete
 				if len(newBytes) > e.config.MaxLiteralLen {
 					// For suffix, keep the last MaxLiteralLen bytes
 					newBytes = newBytes[len(newBytes)-e.config.MaxLiteralLen:]
+					complete = false
 				}
-				lits[j] = NewLiteral(newBytes, lit.Complete)
+				lits[j] = NewLiteral(newBytes, complete)
 			}
 			suffixes = NewSeq(lits...)
 
@@ -916,10 +920,12 @@ func (e *Extractor) generateCaseFoldVariants(foldSets [][]rune, prefixLen int) *
 	lits := make([]Literal, 0, len(variants))
 	for _, v := range variants {
 		b := runeSliceToBytes(v)
+		complete := true
 		if len(b) > e.config.MaxLiteralLen {
 			b = b[:e.config.MaxLiteralLen]
+			complete = false
 		}
-		lits = append(lits, NewLiteral(b, true))
+		lits = append(lits, NewLiteral(b, complete))
 	}
 	return NewSeq(lits...)
 }
